@@ -198,49 +198,88 @@ def no_none_subscripts(ck, rule):
 
 # ------------------------------------------------------------------------------------------------ C17
 
+def _mentions_scale(node):
+    for n in ast.walk(node):
+        d = dotted(n) if isinstance(n, (ast.Name, ast.Attribute)) else None
+        if d and (d.split(".")[-1] in ("scale", "bias")):
+            return True
+    return False
+
+
 def store_map(ck, rule):
-    """C17.R1: the normaliser maps v to (v - bias)/scale, only when not raw."""
+    """C17.R1: the normaliser maps v to (v - bias)/scale, only when not raw (decided on the paths of the code slice that applies
+    the map, wherever a refactoring has put it: in the normaliser itself or in a helper extracted from it)."""
     prog = ck.prog
+    from ..common import closure_funcs, infeasible, guard_cases
     fm = A.normaliser(prog)
     vp = [p for p in fm.params if p != "self"][0]
-    blk = None
-    for n in fm.node.body:
-        if isinstance(n, ast.If) and any(dotted(x) == "self.scale" for x in ast.walk(n.test)) and any(dotted(x) == "self.bias" for x in ast.walk(n.test)):
-            blk = n
-    if blk is None:
-        ck.bad(rule, fm, "the normaliser applies the scale/bias store map", "no block guarded by self.scale / self.bias found", fm.node)
+    # slice of the normaliser from the first top-level statement that mentions scale/bias
+    body = fm.node.body
+    start = None
+    for i, st in enumerate(body):
+        if _mentions_scale(st):
+            start = i
+            break
+    if start is None:
+        ck.bad(rule, fm, "the normaliser applies the scale/bias store map", "no statement of the normaliser (or a helper it calls at top level) mentions scale/bias", fm.node,
+               "scaled objects would store the untransformed value")
         return
-    # raw bypass
-    rawneg = any(isinstance(x, ast.UnaryOp) and isinstance(x.op, ast.Not) and dotted(x.operand) == "raw" for x in ast.walk(blk.test))
-    ck.check(rawneg, rule, fm, "raw codes bypass the scale/bias map", "map guard %s does not exclude raw" % src(blk.test)[:80], blk, "raw codes would be transformed as if they were values")
-    v, b, s = Term.var(vp), Term.var("self.bias"), Term.var("self.scale")
-    oracle = (v - b) * s.inverse()
-    n_ok = 0
-    for p in enum_paths([blk]):
-        pf = walk_path(p)
-        took = [g for g in pf.guards if g[3] is blk]
-        if not took or not took[0][1]:
+    # include a directly preceding `self.scaled = False` style reset
+    paths = enum_paths(body[start:], prog=prog, func=fm)
+    v, b, s_ = Term.var(vp), Term.var("self.bias"), Term.var("self.scale")
+    oracle = (v - b) * s_.inverse()
+    n_map = n_id = 0
+    ck.saw(fm, paths=len(paths))
+    for p in paths:
+        pf = walk_path(p, prog=prog, func=fm)
+        if infeasible(pf) or pf.end == "raise" or pf.ret is None:
             continue
-        cur = pf.env.get(vp, ast.Name(id=vp, ctx=ast.Load()))
-        cur = peel(cur)[0]
+        r0 = pf.ret.elts[0] if isinstance(pf.ret, ast.Tuple) and pf.ret.elts else pf.ret
+        r0 = peel(r0)[0]
         try:
-            t0 = mkterm(cur, rename=lambda d: d)
+            t0 = mkterm(r0, rename=lambda d: d)
         except NotATerm as e:
-            ck.unsure(rule, fm, "store map is an affine expression", blk, str(e))
+            ck.unsure(rule, fm, "store map is an affine expression", fm.node, "%s: %s" % (e, src(r0)[:80]))
             continue
+        raw_true = any(dotted(g[0]) == "raw" and g[1] for g in pf.guards) or any(isinstance(g[0], ast.UnaryOp) and dotted(g[0].operand) == "raw" and not g[1] for g in pf.guards)
         for asg in guard_cases(pf.guards, rename=lambda d: d):
-            t, o = t0.subst(asg), oracle.subst(asg)
+            t = t0.subst(asg)
             ck.saw(terms=1)
+            if t == v.subst(asg):
+                # identity: allowed when raw, when scale/bias are unset, or when the map is trivial under this case (bias 0, scale 1)
+                o = oracle.subst(asg)
+                conj_false = [g for g in pf.guards if isinstance(g[0], ast.BoolOp) and _mentions_scale(g[0]) and not g[1]]
+                none_checks = [g for g in pf.guards if _mentions_scale(g[0]) and "None" in src(g[0]) and not isinstance(g[0], ast.BoolOp)]
+                if o == t or raw_true or asg.get(("b", "raw")) == Term.const(1) or conj_false or any(_none_unset(g) for g in none_checks):
+                    n_id += 1
+                    continue
+                ck.bad(rule, fm, "storing v stores the quantization of (v - bias)/scale", "value returned untransformed under %s" % [(src(g[0])[:50], g[1]) for g in pf.guards if _mentions_scale(g[0]) or "raw" in src(g[0])], fm.node,
+                       "a non-trivial scale/bias is ignored on this path")
+                break
+            o = oracle.subst(asg)
             if t != o:
-                ck.bad(rule, fm, "storing v stores the quantization of (v - bias)/scale", "store map %s, expected %s" % (t.show(), o.show()), blk,
+                ck.bad(rule, fm, "storing v stores the quantization of (v - bias)/scale", "store map %s, expected %s" % (t.show(), o.show()), fm.node,
                        {"witness": witness(t, o), "meaning": "values are transformed with the wrong affine map before quantization"})
                 break
-        else:
-            n_ok += 1
-    ck.check(n_ok > 0, rule, fm, "store map normalises to (v - bias)/scale on all %d paths of the scaling block" % n_ok, "no path of the scaling block recognised", blk)
-    # scaled flag
-    setsflag = any(isinstance(x, ast.Assign) and any(dotted(t) == "self.scaled" for t in x.targets) and isinstance(x.value, ast.Constant) and x.value.value is True for x in ast.walk(blk))
-    ck.check(setsflag, rule, fm, "objects with a non-identity map are marked scaled (the read map depends on it)", "self.scaled is never set True in the scaling block", blk)
+            if raw_true or asg.get(("b", "raw")) == Term.const(1):
+                ck.bad(rule, fm, "raw codes bypass the scale/bias map", "map applied on a raw path", fm.node, "raw codes would be transformed as if they were values")
+                break
+            n_map += 1
+            # scaled flag on transformed paths
+            sc = pf.env.get("self.scaled")
+            if not (isinstance(sc, ast.Constant) and sc.value is True) and t != v.subst(asg):
+                ck.bad(rule, fm, "objects with a non-identity map are marked scaled (the read map depends on it)", "self.scaled = %s after a non-trivial map" % (src(sc) if sc is not None else "<unchanged>"), fm.node)
+                break
+    ck.check(n_map > 0, rule, fm, "store map normalises to (v - bias)/scale on %d transforming path cases; %d identity cases are raw / unset / trivial" % (n_map, n_id),
+             "no path applies the scale/bias map", fm.node)
+
+
+def _none_unset(g):
+    """guard says scale/bias is None (map unset)"""
+    t, pol = g[0], g[1]
+    if isinstance(t, ast.Compare) and len(t.ops) == 1 and isinstance(t.comparators[0], ast.Constant) and t.comparators[0].value is None:
+        return (isinstance(t.ops[0], ast.Is) and pol) or (isinstance(t.ops[0], ast.IsNot) and not pol)
+    return False
 
 
 def read_map(ck, rule):
